@@ -185,6 +185,21 @@ def _mk_class(R, n_batch):
                 ctx.eq("grad[%s][%d]" % (nm, k), _S(ctx, _el(gv[k])), _S(ctx, _d(_el(frac[key]), th, k)),
                        clause="returned gradient of the fraction == d(fraction)/d theta_k with ALL batches accumulated in numerator and denominator")
         ctx.holds("selection_restored", ctx.tf.constant(amp.decay_group.chains_idx == list(range(R))), clause="the chain selection after append_int equals the selection on entry")
+        # the SAME object integrated a second time (other batch size, other sample, changed couplings): `integral` starts from empty tables
+        orig_split = ff.data_split
+        ff.data_split = lambda data, batch: [{"batch": b, "weight": 1.0} for b in range(n_batch)]
+        try:
+            fr.integral({"weight": 1.0}, batch=1)
+        finally:
+            ff.data_split = orig_split
+        with contextlib.redirect_stdout(io.StringIO()):
+            frac2, gfrac2 = fr.get_frac_grad(sum_diag=False)
+        for i in range(R):
+            ctx.eq("second_integral/diag[%d]" % i, _S(ctx, _el(frac2[names[i]])), _S(ctx, tm.div(tot_int([names[i]]), total)),
+                   clause="FitFractions.integral() on an object that was integrated before: FF_i == sum_batches I_b({i}) / sum_batches I_b(all) of THIS integration only")
+        for key, gv in gfrac2.items():
+            nm = key if isinstance(key, str) else "x".join(key)
+            ctx.eq("second_integral/grad[%s][0]" % nm, _S(ctx, _el(gv[0])), _S(ctx, _d(_el(frac[key]), th, 0)), clause="gradient of the fraction after the second integration")
 
     return g
 
